@@ -180,26 +180,37 @@ Section NumRe.
     | _ => None
     end.
 
-  (* FLOAT_HEXADECIMAL_LITERAL_PATTERN:  0[xX]+[\da-fA-F]+(?:\.[\da-fA-F]+)? <exponent>? <suffix> *)
+  (* FLOAT_HEXADECIMAL_LITERAL_PATTERN:  0 [xX]+ ( H+ ( . H* )?  |  . H+ ) <exponent>? <suffix>      (H = [\da-fA-F])
+     (after the repair of the findings hexfloat-empty-part / hexfloat-hex-suffix: the fraction may be empty after digits, the
+     integer part may be empty before a non-empty fraction, and the exponent digits are DECIMAL - the exponent group is the
+     one of the decimal patterns with pP, so the `[.[0-9a-fA-F]]+` quirk of its third alternative is gone; `exp_alt3` keeps
+     its quirk argument, which no matcher sets any more).  [xX]+ is greedy; x/X are neither hexadecimal digits nor a dot, so
+     giving one back never helps; Exponent is optional and Suffix may be empty, so nothing after the constant backtracks. *)
   Definition fhex_match (x : str) : option (str * str * str) :=
     match x with
     | 48%N :: t =>
         let (xs, r) := span (in_set [120; 88]%N) t in
         if nonnil xs then
           let (h, r1) := span ishex r in
-          if nonnil h then
-            let (c, r3) :=
+          let cr : option (str * str) :=
+            if nonnil h then
               match r1 with
-              | 46%N :: r2 =>
-                  let (f, r2') := span ishex r2 in
-                  if nonnil f then (48%N :: xs ++ h ++ 46%N :: f, r2') else (48%N :: xs ++ h, r1)
-              | _ => (48%N :: xs ++ h, r1)
+              | 46%N :: r2 => let (f, r2') := span ishex r2 in Some (48%N :: xs ++ h ++ 46%N :: f, r2')
+              | _ => Some (48%N :: xs ++ h, r1)
+              end
+            else
+              match r1 with
+              | 46%N :: r2 => let (f, r2') := span ishex r2 in if nonnil f then Some (48%N :: xs ++ 46%N :: f, r2') else None
+              | _ => None
               end in
-            match exp_match [112; 80]%N ishex true r3 with
-            | Some (e, r4) => Some (c, e, suffix_run r4)
-            | None => Some (c, [], suffix_run r3)
-            end
-          else None
+          match cr with
+          | Some (c, r3) =>
+              match exp_match [112; 80]%N isd false r3 with
+              | Some (e, r4) => Some (c, e, suffix_run r4)
+              | None => Some (c, [], suffix_run r3)
+              end
+          | None => None
+          end
         else None
     | _ => None
     end.
